@@ -106,7 +106,9 @@ def main():
             out["twin_paths"] = npaths
             wit = None
             for m in msgs:
-                if m.state.name == "POST_FAIL":
+                # POST_FAIL: the end of the body was reached; EXEC_ERR: the body was entered and
+                # raised (the main analysis below reports that) - both witness reachability
+                if m.state.name in ("POST_FAIL", "EXEC_ERR"):
                     p = parse_call(m.message, twin.__name__)
                     if p is not None:
                         wit = bind(twin, p)
